@@ -1227,7 +1227,7 @@ def option_cases(ctx, r):
         plan = plan_class([a for _, a in terms], c, lb, ub)
         vs = [v for v, _ in terms]
         samples = [dict(zip(vs, t)) for t in itertools.product((0, 1), repeat=n)]
-        how = r.choice(['unbalanced', 'unbalanced', 'badmethod', 'scalar-unbalanced', 'floats', 'fractional', 'inf'])
+        how = r.choice(['unbalanced', 'unbalanced', 'badmethod', 'scalar-unbalanced', 'short-unbalanced', 'floats', 'fractional', 'inf'])
         ctx.tick(f'option:{how}:{plan.split(":")[0]}')
         ctx.case(('option', how, repr(terms), c, lb, ub), nontrivial=plan.startswith(('slack', 'equality')))
         base = HDR + f'terms = {terms!r}\nc, lb, ub = {c}, {lb}, {ub}\nb = dimod.BinaryQuadraticModel("BINARY", dtype=object)\nfor v, _ in terms: b.add_variable(v)\n'
@@ -1264,6 +1264,17 @@ def option_cases(ctx, r):
             if exc != want or not untouched:
                 ctx.fail('property', site, 'penalization_method dispatch', f'terms {terms!r} c={c} lb={lb} ub={ub} ({how}; plan by definition: {plan}): raised {exc}, expected {want}; model untouched: {untouched}',
                          repro=base + f'try:\n    b.add_linear_inequality_constraint(terms, 1, "c", constant=c, lb=lb, ub=ub, penalization_method={"unbalanced" if how == "scalar-unbalanced" else "slak"!r})\n    e = None\nexcept Exception as ex:\n    e = type(ex).__name__\nassert e == {want!r} and b.offset == 0 and b.is_linear()\n')
+        elif how == 'short-unbalanced':
+            # "A list with two lagrange_multiplier are needed": a shorter list (or a set / generator) is refused -- and, like every refusal, leaves the model as it was
+            lam = r.choice([[], [2], (3,), [], [1]])
+            ret, exc, _w = call(lam=lam, penalization_method='unbalanced')
+            want_exc = {'skip': False, 'infeasible': True}.get(plan, True)
+            untouched = b.offset == 0 and b.is_linear() and all(b.get_linear(v) == 0 for v in vs) and list(b.variables) == vs
+            if (exc is not None) != want_exc or not untouched:
+                ctx.fail('property', site, "penalization_method='unbalanced', fewer than two multipliers", f'terms {terms!r} c={c} lb={lb} ub={ub} multipliers {lam!r} (plan by definition: {plan}): raised {exc}; model untouched: {untouched} '
+                         f'(linear {[b.get_linear(v) for v in vs]}, offset {b.offset})',
+                         repro=base + f'try:\n    b.add_linear_inequality_constraint(terms, {lam!r}, "c", constant=c, lb=lb, ub=ub, penalization_method="unbalanced")\n    e = None\nexcept Exception as ex:\n    e = type(ex).__name__\n'
+                               f'assert (e is not None) == {want_exc} and b.offset == 0 and b.is_linear() and all(b.get_linear(v) == 0 for v, _ in terms), (e, b)\n')
         elif how == 'floats':
             # integral floats are integers: same slack terms, same model, no warning
             b2 = dimod.BinaryQuadraticModel('BINARY', dtype=object)
@@ -1308,6 +1319,40 @@ def option_cases(ctx, r):
                          repro=base + 'try:\n    b.add_linear_inequality_constraint(terms, 1, "c", constant=c, lb=lb, ub=float("inf"))\n    e = None\nexcept Exception as ex:\n    e = type(ex).__name__\nassert e == "OverflowError" and b.offset == 0 and b.is_linear()\n')
 
 # ------------------------------------------------------------------------------------ log2 / log10 as computed by the code
+
+def log10_boundary_cases(ctx, r):
+    """`slack_method='log10'` at S = 10**k + d, k <= 18: the number of slack variables is the number of decimal digits of S.
+    Computed as `int(np.ceil(np.log10(S + 1)))` it is one short at S = 10**15 (log10(10**15 + 1) rounds to 15.0) and for
+    S = 10**k + d, k >= 16 (S + 1 is not even a float): the highest digit variable is missing, the slack reaches only
+    10**k - 1 < S, and the FEASIBLE assignment with sum == lb gets a positive penalty.  Judged on the returned slack terms in
+    exact integers (sound bound: the sum of the per-variable maxima); the over-coverage of the digit lists is D17 (known)."""
+    ds = (-2, -1, 0, 1, 2, 9, 37) if ctx.quick else tuple(range(-40, 41))
+    Ss = sorted({10 ** k + d for k in range(1, 19) for d in ds if 10 ** k + d >= 2})
+    float_wrong = []
+    for S in Ss:
+        if int(np.ceil(np.log10(S + 1))) != len(str(S)):
+            float_wrong.append(S)
+        dq = dimod.DiscreteQuadraticModel(); dq.add_variable(2, 'a'); dq.add_variable(2, 'b')
+        with warnings.catch_warnings():
+            warnings.simplefilter('ignore')
+            st = dq.add_linear_inequality_constraint([('a', 1, 2), ('b', 1, S + 5)], 1, 'c', lb=2, ub=S + 2, slack_method='log10')
+        per = {}
+        for v, _case, bias in st:
+            per.setdefault(v, []).append(int(bias))
+        reach = sum(max(x) for x in per.values())
+        k = len(str(S)) - 1
+        ctx.case(('bound:log10', S), nontrivial=True); ctx.tick('boundary:dqm-log10' + (':>=10**15' if S >= 10 ** 15 else ''))
+        if reach < S or len(per) < len(str(S)):
+            ctx.fail('property', 'DQM.add_linear_inequality_constraint', 'slack_method=log10, slack range 10**k + d, k >= 15',
+                     f'DQM.add_linear_inequality_constraint([("a", 1, 2), ("b", 1, {S + 5})], 1, "c", lb=2, ub={S + 2}, slack_method="log10") (S = 10**{k} + {S - 10 ** k}): {len(per)} slack variables for a '
+                     f'{len(str(S))}-digit range; the returned slack terms reach at most {reach} < S = {S}, so the feasible assignment a=1, b=0 (sum 2 = lb, needs slack {S}) cannot get penalty 0',
+                     repro=HDR + f'S = {S}\nd = dimod.DiscreteQuadraticModel(); d.add_variable(2, "a"); d.add_variable(2, "b")\nst = d.add_linear_inequality_constraint([("a", 1, 2), ("b", 1, S + 5)], 1, "c", lb=2, ub=S + 2, slack_method="log10")\n'
+                           'per = {}\nfor v, _, bias in st: per.setdefault(v, []).append(int(bias))\nassert sum(max(x) for x in per.values()) >= S and len(per) == len(str(S)), (len(per), sum(max(x) for x in per.values()) - S)\n')
+            break
+    ctx.extra['float_log10_digit_count'] = dict(checked=len(Ss), range='S = 10**k + d, k <= 18, d in ' + (str(list(ds)) if ctx.quick else '-40..40'),
+                                                float_differs_from_exact=[f'10**{len(str(s)) - 1}+{s - 10 ** (len(str(s)) - 1)}' for s in float_wrong][:12], n_differs=len(float_wrong))
+    ctx.notes.append(f'TEST (not a theorem): int(ceil(np.log10(S + 1))) != len(str(S)) for {len(float_wrong)} of the {len(Ss)} boundary values S = 10**k + d (first: {float_wrong[:3]}); the source uses the exact digit count')
+
 
 def float_log_test(ctx):
     top = ctx.scale(2 ** 13, 2 ** 20)
@@ -1397,6 +1442,7 @@ def run(ctx):
     netted(ctx, 'benc_cases', lambda: benc_cases(ctx, r, lines, checks))
     netted(ctx, 'slack_boundary_cases', lambda: slack_boundary_cases(ctx, r, lines, checks))
     netted(ctx, 'option_cases', lambda: option_cases(ctx, r))
+    netted(ctx, 'log10_boundary_cases', lambda: log10_boundary_cases(ctx, r))
     for _ in range(ctx.scale(140, 3000)):
         netted(ctx, 'cqm_case', lambda: cqm_case(ctx, r, lines, checks))
     if len(lines) != len(checks):    # a phase stopped by the safety net between the two appends
